@@ -3,7 +3,7 @@
    calcDescriptor<X>Length: Gen/Preds.v (re-translated from descriptor.go on every run);
    Spec: Spec/DescSpec.v (body sizes from the standards as plain integers, the TLV split as a relation on bytes). *)
 From Coq Require Import ZArith List Lia.
-Require Import Base.Bits Base.Iter Base.Wr Gen.Consts Gen.Types Gen.Preds Model.Desc Spec.DescSpec Proofs.DescProofs.
+Require Import Base.Bits Base.Iter Base.Wr Gen.Consts Gen.Types Gen.Preds Model.Desc Spec.DescSpec Spec.DvbSpec Spec.DescSpec2 Proofs.DescProofs Proofs.DescRoundTrip2 Proofs.DescRoundTrip3 Proofs.DescRoundTrip4 Proofs.DescRoundTripAll Proofs.DescWrite2.
 Import ListNotations.
 Open Scope Z_scope.
 
@@ -366,3 +366,339 @@ Proof.
       apply (brt_user_defined (set_UserDefined (desc_hdr 200 0) [1; 2; 3])); cbv; intuition discriminate.
   - eexists. split; [vm_compute; reflexivity|]. split; vm_compute; reflexivity.
 Qed.
+
+(* ================= (c, continued) the remaining typed tags =================
+   Same statement shape as above.  List-valued bodies: every item inside its field widths (wf_<tag>_item), at least one
+   item (a zero-item body is written as length 0 and comes back as the bare header: S7, covered by entry_rt in
+   C14_loop_roundtrip) and at most as many as fit 255 bytes.  Language / country codes are exactly 3 bytes. *)
+
+Theorem C14_rt_content : forall d v out rest,
+  Descriptor_Tag d = 84 -> Descriptor_Content d = Some v -> Forall wf_content_item (DescriptorContent_Items v) ->
+  0 < zlen (DescriptorContent_Items v) < 128 ->
+  enc_descriptors_with_length [d] = Ok out -> items_bytes_ok out ->
+  parse_descriptors (new_iter (bytes_of_items out ++ rest)) =
+    Ok ([set_Content (desc_hdr 84 (2 * zlen (DescriptorContent_Items v))) v],
+        mk_iter (bytes_of_items out ++ rest) (4 + 2 * zlen (DescriptorContent_Items v))).
+Proof. exact rt_content. Qed.
+Print Assumptions C14_rt_content.
+
+Theorem C14_rt_parental_rating : forall d v out rest,
+  Descriptor_Tag d = 85 -> Descriptor_ParentalRating d = Some v -> Forall wf_parental_rating_item (DescriptorParentalRating_Items v) ->
+  0 < zlen (DescriptorParentalRating_Items v) < 64 ->
+  enc_descriptors_with_length [d] = Ok out -> items_bytes_ok out ->
+  parse_descriptors (new_iter (bytes_of_items out ++ rest)) =
+    Ok ([set_ParentalRating (desc_hdr 85 (4 * zlen (DescriptorParentalRating_Items v))) v],
+        mk_iter (bytes_of_items out ++ rest) (4 + 4 * zlen (DescriptorParentalRating_Items v))).
+Proof. exact rt_parental_rating. Qed.
+Print Assumptions C14_rt_parental_rating.
+
+Theorem C14_rt_subtitling : forall d v out rest,
+  Descriptor_Tag d = 89 -> Descriptor_Subtitling d = Some v -> Forall wf_subtitling_item (DescriptorSubtitling_Items v) ->
+  0 < zlen (DescriptorSubtitling_Items v) < 32 ->
+  enc_descriptors_with_length [d] = Ok out -> items_bytes_ok out ->
+  parse_descriptors (new_iter (bytes_of_items out ++ rest)) =
+    Ok ([set_Subtitling (desc_hdr 89 (8 * zlen (DescriptorSubtitling_Items v))) v],
+        mk_iter (bytes_of_items out ++ rest) (4 + 8 * zlen (DescriptorSubtitling_Items v))).
+Proof. exact rt_subtitling. Qed.
+Print Assumptions C14_rt_subtitling.
+
+(* teletext pages: the writer emits the two 4-bit digits Page/10 and Page%10, so every Page below 160 comes back
+   (the standard's two BCD digits are 0..99) *)
+Theorem C14_rt_teletext : forall d v out rest,
+  Descriptor_Tag d = 86 -> Descriptor_Teletext d = Some v -> Forall wf_teletext_item (DescriptorTeletext_Items v) ->
+  0 < zlen (DescriptorTeletext_Items v) < 52 ->
+  enc_descriptors_with_length [d] = Ok out -> items_bytes_ok out ->
+  parse_descriptors (new_iter (bytes_of_items out ++ rest)) =
+    Ok ([set_Teletext (desc_hdr 86 (5 * zlen (DescriptorTeletext_Items v))) v],
+        mk_iter (bytes_of_items out ++ rest) (4 + 5 * zlen (DescriptorTeletext_Items v))).
+Proof. exact rt_teletext. Qed.
+Print Assumptions C14_rt_teletext.
+
+Theorem C14_rt_vbi_teletext : forall d v out rest,
+  Descriptor_Tag d = 70 -> Descriptor_VBITeletext d = Some v -> Forall wf_teletext_item (DescriptorTeletext_Items v) ->
+  0 < zlen (DescriptorTeletext_Items v) < 52 ->
+  enc_descriptors_with_length [d] = Ok out -> items_bytes_ok out ->
+  parse_descriptors (new_iter (bytes_of_items out ++ rest)) =
+    Ok ([set_VBITeletext (desc_hdr 70 (5 * zlen (DescriptorTeletext_Items v))) v],
+        mk_iter (bytes_of_items out ++ rest) (4 + 5 * zlen (DescriptorTeletext_Items v))).
+Proof. exact rt_vbi_teletext. Qed.
+Print Assumptions C14_rt_vbi_teletext.
+
+(* the hypotheses are satisfiable: two teletext pages (struct Length wrong), the bytes written, and what comes back *)
+Definition ex_teletext : DescriptorTeletext := {| DescriptorTeletext_Items :=
+  [ {| DescriptorTeletextItem_Language := [102; 114; 97]; DescriptorTeletextItem_Magazine := 7; DescriptorTeletextItem_Page := 99;
+       DescriptorTeletextItem_Type := 31 |};
+    {| DescriptorTeletextItem_Language := [101; 110; 103]; DescriptorTeletextItem_Magazine := 1; DescriptorTeletextItem_Page := 159;
+       DescriptorTeletextItem_Type := 2 |} ] |}.
+Example C14_rt_teletext_example :
+  Forall wf_teletext_item (DescriptorTeletext_Items ex_teletext) /\
+  exists out, enc_descriptors_with_length [set_Teletext (desc_hdr 86 3) ex_teletext] = Ok out /\ items_bytes_ok out /\
+    bytes_of_items out = [240; 12; 86; 10; 102; 114; 97; 255; 153; 101; 110; 103; 17; 249].
+Proof.
+  split; [repeat constructor; cbv; intuition discriminate|].
+  eexists. split; [vm_compute; reflexivity|]. split; [repeat constructor; cbv; intuition discriminate|reflexivity].
+Qed.
+(* outside the domain: page 160 is written as digits (16 mod 16, 0) and comes back as page 0 *)
+Example C14_teletext_page_160 :
+  let it p := {| DescriptorTeletextItem_Language := [102; 114; 97]; DescriptorTeletextItem_Magazine := 0; DescriptorTeletextItem_Page := p;
+                 DescriptorTeletextItem_Type := 1 |} in
+  res_bind (enc_descriptors_with_length [set_Teletext (desc_hdr 86 0) {| DescriptorTeletext_Items := [it 160] |}])
+    (fun out => res_map (fun r => map Descriptor_Teletext (fst r)) (parse_descriptors (new_iter (bytes_of_items out))))
+  = Ok [Some {| DescriptorTeletext_Items := [it 0] |}].
+Proof. vm_compute. reflexivity. Qed.
+
+Theorem C14_rt_short_event : forall d v out rest,
+  Descriptor_Tag d = 77 -> Descriptor_ShortEvent d = Some v -> length (DescriptorShortEvent_Language v) = 3%nat ->
+  5 + zlen (DescriptorShortEvent_EventName v) + zlen (DescriptorShortEvent_Text v) < 256 ->
+  enc_descriptors_with_length [d] = Ok out -> items_bytes_ok out ->
+  parse_descriptors (new_iter (bytes_of_items out ++ rest)) =
+    Ok ([set_ShortEvent (desc_hdr 77 (5 + zlen (DescriptorShortEvent_EventName v) + zlen (DescriptorShortEvent_Text v))) v],
+        mk_iter (bytes_of_items out ++ rest) (4 + (5 + zlen (DescriptorShortEvent_EventName v) + zlen (DescriptorShortEvent_Text v)))).
+Proof. exact rt_short_event. Qed.
+Print Assumptions C14_rt_short_event.
+
+(* wf_component: both 4-bit fields, both bytes, 3-byte language code, text of at most 249 bytes *)
+Theorem C14_rt_component : forall d v out rest,
+  Descriptor_Tag d = 80 -> Descriptor_Component d = Some v -> wf_component v ->
+  enc_descriptors_with_length [d] = Ok out -> items_bytes_ok out ->
+  parse_descriptors (new_iter (bytes_of_items out ++ rest)) =
+    Ok ([set_Component (desc_hdr 80 (6 + zlen (DescriptorComponent_Text v))) v],
+        mk_iter (bytes_of_items out ++ rest) (4 + (6 + zlen (DescriptorComponent_Text v)))).
+Proof. exact rt_component. Qed.
+Print Assumptions C14_rt_component.
+
+(* AC-3 / Enhanced AC-3: all 16 / 256 flag combinations; an optional byte whose flag is clear is not transmitted, so it
+   must hold 0 to come back (opt_ok); additional info of any length that fits *)
+Theorem C14_rt_ac3 : forall d v out rest,
+  Descriptor_Tag d = 106 -> Descriptor_AC3 d = Some v -> wf_ac3 v ->
+  enc_descriptors_with_length [d] = Ok out -> items_bytes_ok out ->
+  parse_descriptors (new_iter (bytes_of_items out ++ rest)) =
+    Ok ([set_AC3 (desc_hdr 106 (size_ac3 v)) v], mk_iter (bytes_of_items out ++ rest) (4 + size_ac3 v)).
+Proof. exact rt_ac3. Qed.
+Print Assumptions C14_rt_ac3.
+
+Theorem C14_rt_enhanced_ac3 : forall d v out rest,
+  Descriptor_Tag d = 122 -> Descriptor_EnhancedAC3 d = Some v -> wf_enhanced_ac3 v ->
+  enc_descriptors_with_length [d] = Ok out -> items_bytes_ok out ->
+  parse_descriptors (new_iter (bytes_of_items out ++ rest)) =
+    Ok ([set_EnhancedAC3 (desc_hdr 122 (size_enhanced_ac3 v)) v], mk_iter (bytes_of_items out ++ rest) (4 + size_enhanced_ac3 v)).
+Proof. exact rt_enhanced_ac3. Qed.
+Print Assumptions C14_rt_enhanced_ac3.
+
+(* extension: tag 6 with the supplementary audio body (and no raw bytes), or any other extension tag with raw bytes
+   (possibly none) and no typed body *)
+Theorem C14_rt_extension : forall d v out rest,
+  Descriptor_Tag d = 127 -> Descriptor_Extension d = Some v -> wf_extension v ->
+  enc_descriptors_with_length [d] = Ok out -> items_bytes_ok out ->
+  parse_descriptors (new_iter (bytes_of_items out ++ rest)) =
+    Ok ([set_Extension (desc_hdr 127 (size_extension v)) v], mk_iter (bytes_of_items out ++ rest) (4 + size_extension v)).
+Proof. exact rt_extension. Qed.
+Print Assumptions C14_rt_extension.
+
+(* extended event: 0..n items, each description and content with its own length byte; length_of_items is computed *)
+Theorem C14_rt_extended_event : forall d v out rest,
+  Descriptor_Tag d = 78 -> Descriptor_ExtendedEvent d = Some v -> wf_extended_event v ->
+  enc_descriptors_with_length [d] = Ok out -> items_bytes_ok out ->
+  parse_descriptors (new_iter (bytes_of_items out ++ rest)) =
+    Ok ([set_ExtendedEvent (desc_hdr 78 (size_extended_event v)) v], mk_iter (bytes_of_items out ++ rest) (4 + size_extended_event v)).
+Proof. exact rt_extended_event. Qed.
+Print Assumptions C14_rt_extended_event.
+
+(* VBI data: services of the six line-based kinds with 0..255 lines each, services of any other kind without lines *)
+Theorem C14_rt_vbi_data : forall d v out rest,
+  Descriptor_Tag d = 69 -> Descriptor_VBIData d = Some v -> Forall wf_vbi_service (DescriptorVBIData_Services v) ->
+  0 < size_vbi_data v < 256 ->
+  enc_descriptors_with_length [d] = Ok out -> items_bytes_ok out ->
+  parse_descriptors (new_iter (bytes_of_items out ++ rest)) =
+    Ok ([set_VBIData (desc_hdr 69 (size_vbi_data v)) v], mk_iter (bytes_of_items out ++ rest) (4 + size_vbi_data v)).
+Proof. exact rt_vbi_data. Qed.
+Print Assumptions C14_rt_vbi_data.
+
+(* satisfiability: an AC-3 descriptor with two of the four optional bytes; a VBI data descriptor with a teletext
+   service of two lines, a service of a non line-based kind (3) and a WSS service without lines; an extended event
+   with two items *)
+Definition ex_ac3 : DescriptorAC3 := {| DescriptorAC3_AdditionalInfo := [1; 2]; DescriptorAC3_ASVC := 0; DescriptorAC3_BSID := 8;
+  DescriptorAC3_ComponentType := 66; DescriptorAC3_HasASVC := false; DescriptorAC3_HasBSID := true; DescriptorAC3_HasComponentType := true;
+  DescriptorAC3_HasMainID := false; DescriptorAC3_MainID := 0 |}.
+Definition ex_vbi : DescriptorVBIData := {| DescriptorVBIData_Services :=
+  [ {| DescriptorVBIDataService_DataServiceID := 1; DescriptorVBIDataService_Descriptors :=
+         [ {| DescriptorVBIDataDescriptor_FieldParity := true; DescriptorVBIDataDescriptor_LineOffset := 7 |};
+           {| DescriptorVBIDataDescriptor_FieldParity := false; DescriptorVBIDataDescriptor_LineOffset := 31 |} ] |};
+    {| DescriptorVBIDataService_DataServiceID := 3; DescriptorVBIDataService_Descriptors := [] |};
+    {| DescriptorVBIDataService_DataServiceID := 7; DescriptorVBIDataService_Descriptors := [] |} ] |}.
+Definition ex_extended_event : DescriptorExtendedEvent := {| DescriptorExtendedEvent_ISO639LanguageCode := [102; 114; 97];
+  DescriptorExtendedEvent_Items :=
+    [ {| DescriptorExtendedEventItem_Content := [9]; DescriptorExtendedEventItem_Description := [7; 8] |};
+      {| DescriptorExtendedEventItem_Content := []; DescriptorExtendedEventItem_Description := [] |} ];
+  DescriptorExtendedEvent_LastDescriptorNumber := 15; DescriptorExtendedEvent_Number := 1; DescriptorExtendedEvent_Text := [65] |}.
+Example C14_rt_examples2 :
+  wf_ac3 ex_ac3 /\ Forall wf_vbi_service (DescriptorVBIData_Services ex_vbi) /\ wf_extended_event ex_extended_event /\
+  res_map bytes_of_items (enc_descriptors_with_length
+    [set_AC3 (desc_hdr 106 0) ex_ac3; set_VBIData (desc_hdr 69 9) ex_vbi; set_ExtendedEvent (desc_hdr 78 0) ex_extended_event]) =
+  Ok [240; 34; 106; 5; 207; 66; 8; 1; 2; 69; 9; 1; 2; 231; 223; 3; 1; 255; 7; 0;
+      78; 14; 31; 102; 114; 97; 7; 2; 7; 8; 1; 9; 0; 0; 1; 65].
+Proof.
+  split; [cbv; intuition discriminate|]. split; [repeat constructor; cbv; intuition discriminate|].
+  split; [cbv; intuition discriminate|]. vm_compute. reflexivity.
+Qed.
+
+(* local time offset: 1..19 items; country code of 3 bytes, 6-bit region id, both offsets whole minutes hh:mm with
+   two BCD digits each (bcd_minutes: hh 00..99, mm 00..59), time of change any second from 1900-03-01 00:00:00 to
+   2038-04-22 23:59:59 UTC (dvb_time_range: the range of the 16-bit MJD; the date arithmetic is property C15) *)
+Theorem C14_rt_local_time_offset : forall d v out rest,
+  Descriptor_Tag d = 88 -> Descriptor_LocalTimeOffset d = Some v ->
+  Forall wf_local_time_offset_item (DescriptorLocalTimeOffset_Items v) ->
+  0 < zlen (DescriptorLocalTimeOffset_Items v) < 20 ->
+  enc_descriptors_with_length [d] = Ok out -> items_bytes_ok out ->
+  parse_descriptors (new_iter (bytes_of_items out ++ rest)) =
+    Ok ([set_LocalTimeOffset (desc_hdr 88 (13 * zlen (DescriptorLocalTimeOffset_Items v))) v],
+        mk_iter (bytes_of_items out ++ rest) (4 + 13 * zlen (DescriptorLocalTimeOffset_Items v))).
+Proof. exact rt_local_time_offset. Qed.
+Print Assumptions C14_rt_local_time_offset.
+
+(* satisfiable: France, region 0, +01:00 now, +02:00 from 1993-10-13 12:45:00 UTC (the example date of EN 300 468
+   Annex C: MJD 0xC079) *)
+Definition ex_lto : DescriptorLocalTimeOffset := {| DescriptorLocalTimeOffset_Items :=
+  [ {| DescriptorLocalTimeOffsetItem_CountryCode := [70; 82; 65]; DescriptorLocalTimeOffsetItem_CountryRegionID := 0;
+       DescriptorLocalTimeOffsetItem_LocalTimeOffset := spec_duration_ns 1 0 0; DescriptorLocalTimeOffsetItem_LocalTimeOffsetPolarity := false;
+       DescriptorLocalTimeOffsetItem_NextTimeOffset := spec_duration_ns 2 0 0; DescriptorLocalTimeOffsetItem_TimeOfChange := 750516300 |} ] |}.
+Example C14_rt_local_time_offset_example :
+  Forall wf_local_time_offset_item (DescriptorLocalTimeOffset_Items ex_lto) /\
+  res_map bytes_of_items (enc_descriptors_with_length [set_LocalTimeOffset (desc_hdr 88 0) ex_lto]) =
+  Ok [240; 15; 88; 13; 70; 82; 65; 2; 1; 0; 192; 121; 18; 69; 0; 2; 0].
+Proof.
+  split; [|vm_compute; reflexivity]. repeat constructor; try (cbv; intuition discriminate).
+  - exists 1, 0. repeat split; lia.
+  - exists 2, 0. repeat split; lia.
+Qed.
+
+(* ================= (e, continued) loops mixing ALL tags =================
+   body_rt for the thirteen tags added above (C14_body_roundtrips has the other twelve classes), then the loop theorem
+   with the domain spelled out: wf_entry d d' = tag a byte, body at most 255 bytes, and either the body is empty and d'
+   is the bare header (S7) or typed_rt d d' — the inductive predicate in Proofs/DescRoundTripAll.v whose 25 constructors
+   are exactly the hypotheses of the 25 per-class round trips (23 typed tags, unknown, user-defined). *)
+Theorem C14_body_roundtrips2 :
+  (forall d v, Descriptor_Tag d = 106 -> Descriptor_AC3 d = Some v -> wf_ac3 v -> body_rt d (set_AC3 (desc_hdr 106 (size_ac3 v)) v)) /\
+  (forall d v, Descriptor_Tag d = 122 -> Descriptor_EnhancedAC3 d = Some v -> wf_enhanced_ac3 v ->
+     body_rt d (set_EnhancedAC3 (desc_hdr 122 (size_enhanced_ac3 v)) v)) /\
+  (forall d v, Descriptor_Tag d = 80 -> Descriptor_Component d = Some v -> wf_component v ->
+     body_rt d (set_Component (desc_hdr 80 (6 + zlen (DescriptorComponent_Text v))) v)) /\
+  (forall d v, Descriptor_Tag d = 84 -> Descriptor_Content d = Some v -> Forall wf_content_item (DescriptorContent_Items v) ->
+     body_rt d (set_Content (desc_hdr 84 (2 * zlen (DescriptorContent_Items v))) v)) /\
+  (forall d v, Descriptor_Tag d = 78 -> Descriptor_ExtendedEvent d = Some v -> wf_extended_event v ->
+     body_rt d (set_ExtendedEvent (desc_hdr 78 (size_extended_event v)) v)) /\
+  (forall d v, Descriptor_Tag d = 127 -> Descriptor_Extension d = Some v -> wf_extension v ->
+     body_rt d (set_Extension (desc_hdr 127 (size_extension v)) v)) /\
+  (forall d v, Descriptor_Tag d = 88 -> Descriptor_LocalTimeOffset d = Some v ->
+     Forall wf_local_time_offset_item (DescriptorLocalTimeOffset_Items v) ->
+     body_rt d (set_LocalTimeOffset (desc_hdr 88 (13 * zlen (DescriptorLocalTimeOffset_Items v))) v)) /\
+  (forall d v, Descriptor_Tag d = 85 -> Descriptor_ParentalRating d = Some v ->
+     Forall wf_parental_rating_item (DescriptorParentalRating_Items v) ->
+     body_rt d (set_ParentalRating (desc_hdr 85 (4 * zlen (DescriptorParentalRating_Items v))) v)) /\
+  (forall d v, Descriptor_Tag d = 77 -> Descriptor_ShortEvent d = Some v -> length (DescriptorShortEvent_Language v) = 3%nat ->
+     5 + zlen (DescriptorShortEvent_EventName v) + zlen (DescriptorShortEvent_Text v) < 256 ->
+     body_rt d (set_ShortEvent (desc_hdr 77 (5 + zlen (DescriptorShortEvent_EventName v) + zlen (DescriptorShortEvent_Text v))) v)) /\
+  (forall d v, Descriptor_Tag d = 89 -> Descriptor_Subtitling d = Some v -> Forall wf_subtitling_item (DescriptorSubtitling_Items v) ->
+     body_rt d (set_Subtitling (desc_hdr 89 (8 * zlen (DescriptorSubtitling_Items v))) v)) /\
+  (forall d v, Descriptor_Tag d = 86 -> Descriptor_Teletext d = Some v -> Forall wf_teletext_item (DescriptorTeletext_Items v) ->
+     body_rt d (set_Teletext (desc_hdr 86 (5 * zlen (DescriptorTeletext_Items v))) v)) /\
+  (forall d v, Descriptor_Tag d = 69 -> Descriptor_VBIData d = Some v -> Forall wf_vbi_service (DescriptorVBIData_Services v) ->
+     body_rt d (set_VBIData (desc_hdr 69 (size_vbi_data v)) v)) /\
+  (forall d v, Descriptor_Tag d = 70 -> Descriptor_VBITeletext d = Some v -> Forall wf_teletext_item (DescriptorTeletext_Items v) ->
+     body_rt d (set_VBITeletext (desc_hdr 70 (5 * zlen (DescriptorTeletext_Items v))) v)).
+Proof.
+  repeat split.
+  - exact brt_ac3. - exact brt_enhanced_ac3. - exact brt_component. - exact brt_content. - exact brt_extended_event.
+  - exact brt_extension. - exact brt_local_time_offset. - exact brt_parental_rating. - exact brt_short_event.
+  - exact brt_subtitling. - exact brt_teletext. - exact brt_vbi_data. - exact brt_vbi_teletext.
+Qed.
+Print Assumptions C14_body_roundtrips2.
+
+Theorem C14_loop_roundtrip_all_tags : forall ds ds' out rest,
+  enc_descriptors_with_length ds = Ok out -> items_bytes_ok out -> loop_size ds < 4096 ->
+  Forall2 wf_entry ds ds' ->
+  parse_descriptors (new_iter (bytes_of_items out ++ rest)) = Ok (ds', mk_iter (bytes_of_items out ++ rest) (2 + loop_size ds)).
+Proof. exact loop_roundtrip_all. Qed.
+Print Assumptions C14_loop_roundtrip_all_tags.
+
+(* every descriptor that comes back carries the tag written and the body size as its Length *)
+Theorem C14_loop_roundtrip_headers : forall d d', wf_entry d d' ->
+  Descriptor_Tag d' = Descriptor_Tag d /\ Descriptor_Length d' = desc_size d.
+Proof. exact wf_entry_header. Qed.
+Print Assumptions C14_loop_roundtrip_headers.
+
+(* a loop inside the domain: AC-3, teletext, an empty content descriptor (comes back as the bare header), VBI data,
+   local time offset, extended event; every struct Length is wrong *)
+Definition ex_all : list Descriptor :=
+  [ set_AC3 (desc_hdr 106 0) ex_ac3; set_Teletext (desc_hdr 86 3) ex_teletext; set_Content (desc_hdr 84 9) {| DescriptorContent_Items := [] |};
+    set_VBIData (desc_hdr 69 1) ex_vbi; set_LocalTimeOffset (desc_hdr 88 0) ex_lto; set_ExtendedEvent (desc_hdr 78 200) ex_extended_event ].
+Definition ex_all_parsed : list Descriptor :=
+  [ set_AC3 (desc_hdr 106 5) ex_ac3; set_Teletext (desc_hdr 86 10) ex_teletext; desc_hdr 84 0;
+    set_VBIData (desc_hdr 69 9) ex_vbi; set_LocalTimeOffset (desc_hdr 88 13) ex_lto; set_ExtendedEvent (desc_hdr 78 14) ex_extended_event ].
+Example C14_loop_all_tags_example : Forall2 wf_entry ex_all ex_all_parsed /\ loop_size ex_all = 63.
+Proof.
+  split; [|reflexivity].
+  repeat (apply Forall2_cons; [split; [cbv; intuition discriminate|]; split; [reflexivity|]|]); [| | | | | |apply Forall2_nil].
+  - right. split; [reflexivity|]. apply (trt_ac3 _ ex_ac3); [reflexivity|reflexivity|cbv; intuition discriminate].
+  - right. split; [reflexivity|]. apply (trt_teletext _ ex_teletext); [reflexivity|reflexivity|repeat constructor; cbv; intuition discriminate].
+  - left. split; reflexivity.
+  - right. split; [reflexivity|]. apply (trt_vbi_data _ ex_vbi); [reflexivity|reflexivity|repeat constructor; cbv; intuition discriminate].
+  - right. split; [reflexivity|]. apply (trt_local_time_offset _ ex_lto); [reflexivity|reflexivity|].
+    destruct C14_rt_local_time_offset_example as [H _]. exact H.
+  - right. split; [reflexivity|]. apply (trt_extended_event _ ex_extended_event); [reflexivity|reflexivity|cbv; intuition discriminate].
+Qed.
+
+(* observation (not in the domain): the teletext page byte holds two 4-bit digits; the parser computes tens*10+units
+   without checking that the digits are decimal, so the bytes 0x1A and 0x20 both read as page 20 and the byte 0xFA
+   reads as page 160, which the writer emits as 0x00 *)
+Example C14_teletext_hex_digits :
+  map (fun pb => res_map (fun r => map (fun d => option_map (fun t => map DescriptorTeletextItem_Page (DescriptorTeletext_Items t)) (Descriptor_Teletext d)) (fst r))
+                   (parse_descriptors (new_iter [240; 7; 86; 5; 102; 114; 97; 8; pb]))) [26; 32; 250]
+  = [Ok [Some [20]]; Ok [Some [20]]; Ok [Some [160]]].
+Proof. vm_compute. reflexivity. Qed.
+
+(* ================= (d, continued) reference layouts of the bit-packed tags =================
+   Spec/DescSpec2.v gives the body of each remaining tag as integer arithmetic on the field values (flag * 2^k, field
+   * 2^k, reserved bits 1), written from EN 300 468 6.2 / 6.4 / Annex D and ISO/IEC 13818-1 2.6; the writers of
+   Model/Desc.v emit exactly those bytes.  Teletext covers VBI teletext (same body).  With C14_write_bodies and
+   C14_write_descriptor (tag, size, body) every one of the 23 typed tags is written as its reference encoding. *)
+Theorem C14_write_bodies2 :
+  (forall v, byte_range (DescriptorAC3_ComponentType v) -> byte_range (DescriptorAC3_BSID v) -> byte_range (DescriptorAC3_MainID v) ->
+             byte_range (DescriptorAC3_ASVC v) -> bytes_ok (DescriptorAC3_AdditionalInfo v) ->
+             bytes_of_items (enc_ac3 v) = ref_ac3 v) /\
+  (forall v, byte_range (DescriptorEnhancedAC3_ComponentType v) -> byte_range (DescriptorEnhancedAC3_BSID v) ->
+             byte_range (DescriptorEnhancedAC3_MainID v) -> byte_range (DescriptorEnhancedAC3_ASVC v) ->
+             byte_range (DescriptorEnhancedAC3_SubStream1 v) -> byte_range (DescriptorEnhancedAC3_SubStream2 v) ->
+             byte_range (DescriptorEnhancedAC3_SubStream3 v) -> bytes_ok (DescriptorEnhancedAC3_AdditionalInfo v) ->
+             bytes_of_items (enc_enhanced_ac3 v) = ref_enhanced_ac3 v) /\
+  (forall v, byte_range (DescriptorAVCVideo_ProfileIDC v) -> byte_range (DescriptorAVCVideo_LevelIDC v) ->
+             0 <= DescriptorAVCVideo_CompatibleFlags v < 32 -> bytes_of_items (enc_avc_video v) = ref_avc_video v) /\
+  (forall v, wf_component v -> bytes_ok (DescriptorComponent_ISO639LanguageCode v) -> bytes_ok (DescriptorComponent_Text v) ->
+             bytes_of_items (enc_component v) = ref_component v) /\
+  (forall v, wf_extended_event v -> bytes_ok (DescriptorExtendedEvent_ISO639LanguageCode v) ->
+             Forall (fun it => bytes_ok (DescriptorExtendedEventItem_Description it) /\ bytes_ok (DescriptorExtendedEventItem_Content it))
+                    (DescriptorExtendedEvent_Items v) ->
+             bytes_ok (DescriptorExtendedEvent_Text v) -> bytes_of_items (enc_extended_event v) = ref_extended_event v) /\
+  (forall v its, wf_extension v -> enc_extension v = Ok its -> items_bytes_ok its -> bytes_of_items its = ref_extension v) /\
+  (forall v, 0 <= DescriptorMaximumBitrate_Bitrate v / 50 < 2 ^ 22 -> bytes_of_items (enc_maximum_bitrate v) = ref_maximum_bitrate v) /\
+  (forall v, Forall wf_teletext_item (DescriptorTeletext_Items v) ->
+             Forall (fun it => bytes_ok (DescriptorTeletextItem_Language it)) (DescriptorTeletext_Items v) ->
+             bytes_of_items (enc_teletext v) = ref_teletext v) /\
+  (forall v, Forall wf_vbi_service (DescriptorVBIData_Services v) -> bytes_of_items (enc_vbi_data v) = ref_vbi_data v) /\
+  (forall v, Forall wf_local_time_offset_item (DescriptorLocalTimeOffset_Items v) ->
+             Forall (fun it => bytes_ok (DescriptorLocalTimeOffsetItem_CountryCode it)) (DescriptorLocalTimeOffset_Items v) ->
+             bytes_of_items (enc_local_time_offset v) = ref_local_time_offset v).
+Proof.
+  repeat split.
+  - exact write_ac3. - exact write_enhanced_ac3. - exact write_avc_video. - exact write_component. - exact write_extended_event.
+  - exact write_extension. - exact write_maximum_bitrate. - exact write_teletext. - exact write_vbi_data. - exact write_local_time_offset.
+Qed.
+Print Assumptions C14_write_bodies2.
+
+(* the reference layouts on the examples above (values computed from the Spec definitions alone) *)
+Example C14_ref_layout_examples :
+  ref_ac3 ex_ac3 = [207; 66; 8; 1; 2] /\ ref_teletext ex_teletext = [102; 114; 97; 255; 153; 101; 110; 103; 17; 249] /\
+  ref_vbi_data ex_vbi = [1; 2; 231; 223; 3; 1; 255; 7; 0] /\
+  ref_extended_event ex_extended_event = [31; 102; 114; 97; 7; 2; 7; 8; 1; 9; 0; 0; 1; 65] /\
+  ref_local_time_offset ex_lto = [70; 82; 65; 2; 1; 0; 192; 121; 18; 69; 0; 2; 0].
+Proof. repeat split; vm_compute; reflexivity. Qed.
